@@ -4,19 +4,19 @@ CONSTANTS
   LC = {"unset", "zero", "valid", "neg"}
   ND = {"unset", "zero", "valid", "bad"}
   NC = {"unset", "zero", "valid", "neg"}
-  CBS = {"unset", "empty", "A", "ws", "bad"}
-  CAS = {"unset", "A", "ws", "bad", "badonly"}
-  CBD = {"unset", "A", "bad"}
-  PBL = {"unset", "A", "ws", "bad"}
+  CBS = {"unset", "empty", "A", "ws", "bad", "badfirst"}
+  CAS = {"unset", "A", "ws", "bad", "badfirst", "badonly"}
+  CBD = {"unset", "A", "bad", "badfirst"}
+  PBL = {"unset", "A", "ws", "bad", "badfirst"}
   GEO = {"unset", "empty", "missing", "garbage"}
   WK = {"unset", "zero", "valid"}
   PUB = {"unset", "true"}
   FK = {"ok", "syntax", "wrongtype", "unreadable"}
   SF = {"S1", "malformed", "missing", "badgen"}
-  RCBS = {"unset", "A", "B", "ws", "bad"}
-  RCAS = {"unset", "A", "bad", "badonly"}
-  RCBD = {"unset", "A", "B", "bad"}
-  RPBL = {"unset", "A", "bad"}
+  RCBS = {"unset", "A", "B", "ws", "bad", "badfirst"}
+  RCAS = {"unset", "A", "bad", "badfirst", "badonly"}
+  RCBD = {"unset", "A", "B", "bad", "badfirst"}
+  RPBL = {"unset", "A", "bad", "badfirst"}
   RGEO = {"unset", "missing"}
   RPUB = {"unset", "true"}
   RFK = {"ok", "syntax", "wrongtype", "unreadable"}
